@@ -8,8 +8,19 @@
 //! `Zone::validate` must equal the reference checker below (written from the property text, the
 //! numbered checks of RFC 1035 §5.2 as listed in the module documentation, and the `GluePolicy`
 //! documentation), and `is_error` must be false exactly for the MX-address and NS-at-wildcard issues.
-//! Not constrained: order / multiplicity of the reported issues, occluded NS or MX records (none in the
+//! Two more families, every subset of their universes: NESTED (14 records, apex ap.ex.): a delegation d
+//! whose name server lies two labels below it, a second NS RRset at sub.d (occluded when d is delegated,
+//! an ordinary delegation otherwise) naming servers below itself, in the sibling delegation e and outside
+//! the zone, glue at ns.sub.d / ns.d / ns.e; and WILD_APEX (11 records): a zone whose apex *.ap.ex. is
+//! itself a wildcard name (apex NS in and out of the zone, its address, a delegation with glue, a
+//! deeper wildcard owning NS) — "NS records at wildcard names" holds for the apex like for any owner.
+//! Not constrained: order / multiplicity of the reported issues, occluded MX records (none in the
 //! universe), malformed NS/MX RDATA (none), name servers covered by a wildcard that owns NS (none).
+//! OCCLUDED NS RRsets (owner strictly below another delegation): neither the property text nor the
+//! documentation says whether their name servers are checked at all, nor which "child zone" the narrow
+//! policy means for them (the cut their name-server lookup runs into, or their owner).  The address and
+//! glue issues that exist under at least one of these readings are ALLOWED for them, never required;
+//! everything else (every issue of a non-occluded RRset, NS-at-wildcard) stays exact.
 #[path = "../zone_ref.rs"]
 mod zone_ref;
 use quandary::db::zone::{GluePolicy, ValidationIssue, Zone};
@@ -44,6 +55,39 @@ const UNIVERSE: [Rec; 19] = [
     rec("c.ap.ex.", CNAME, b"\x01y\x02ap\x02ex\x00"),
     rec("c.ap.ex.", TXT, b"\x02hi"),
     rec("*.w.ap.ex.", NS, b"\x02ns\x03out\x00"),
+];
+
+/// Nested / occluded delegations.  With "d NS" present sub.d.ap.ex. lies below the cut d; without, sub.d is the cut.
+const NESTED: [Rec; 14] = [
+    rec("ap.ex.", SOA, SOA1),
+    rec("ap.ex.", NS, b"\x02ns\x02ap\x02ex\x00"),
+    rec("ns.ap.ex.", A, &[10, 0, 0, 1]),
+    rec("d.ap.ex.", NS, b"\x02ns\x03sub\x01d\x02ap\x02ex\x00"),     // name server two labels below the delegation
+    rec("d.ap.ex.", NS, b"\x02ns\x02ap\x02ex\x00"),                  // name server in the parent zone itself
+    rec("d.ap.ex.", NS, b"\x02ns\x01d\x02ap\x02ex\x00"),
+    rec("sub.d.ap.ex.", NS, b"\x02NS\x03sub\x01D\x02ap\x02ex\x00"),   // name server below this (possibly occluded) owner
+    rec("sub.d.ap.ex.", NS, b"\x02ns\x01e\x02ap\x02ex\x00"),         // ... inside the sibling delegation e
+    rec("sub.d.ap.ex.", NS, b"\x02ns\x03out\x00"),                   // ... outside the zone
+    rec("ns.sub.d.ap.ex.", A, &[10, 0, 0, 5]),                        // glue below both cuts
+    rec("ns.d.ap.ex.", A, &[10, 0, 0, 2]),
+    rec("e.ap.ex.", NS, b"\x02ns\x03sub\x01d\x02ap\x02ex\x00"),     // sibling delegation served from below d / sub.d
+    rec("e.ap.ex.", NS, b"\x02ns\x01e\x02ap\x02ex\x00"),
+    rec("ns.e.ap.ex.", A, &[10, 0, 0, 3]),
+];
+
+/// A zone whose apex is the wildcard name *.ap.ex.
+const WILD_APEX: [Rec; 11] = [
+    rec("*.ap.ex.", SOA, SOA1),
+    rec("*.ap.ex.", SOA, SOA2),
+    rec("*.ap.ex.", NS, b"\x02ns\x03out\x00"),                        // outside the zone
+    rec("*.ap.ex.", NS, b"\x02NS\x01*\x02ap\x02ex\x00"),              // in the zone
+    rec("*.ap.ex.", NS, b"\x02ns\x02ap\x02ex\x00"),                   // beside the zone (ap.ex. is not in *.ap.ex.)
+    rec("ns.*.ap.ex.", A, &[10, 0, 0, 1]),
+    rec("ns.*.ap.ex.", AAAA, &[0x20, 1, 0, 0, 0, 0, 0, 0, 0, 0, 0, 0, 0, 0, 0, 1]),
+    rec("d.*.ap.ex.", NS, b"\x02ns\x01d\x01*\x02ap\x02ex\x00"),
+    rec("ns.d.*.ap.ex.", A, &[10, 0, 0, 2]),
+    rec("*.w.*.ap.ex.", NS, b"\x02ns\x03out\x00"),                     // a wildcard below the wildcard apex
+    rec("*.ap.ex.", TXT, b"\x02hi"),
 ];
 
 // ------------------------------------------------------------------------------------- reference
@@ -81,8 +125,10 @@ fn in_zone_without_address(m: &Model, target: &[String]) -> bool {
     }
 }
 
-fn reference(m: &Model, policy: GluePolicy) -> Vec<Issue> {
+/// (the issues that must be reported, further issues that may be reported — for occluded NS RRsets only)
+fn reference(m: &Model, policy: GluePolicy) -> (Vec<Issue>, Vec<Issue>) {
     let mut v = vec![];
+    let mut may = vec![];
     let addrs = m.class == IN || m.class == CH;
     // "a missing or multiple apex SOA, a missing apex NS"
     match m.rrset(&m.apex, SOA) {
@@ -97,18 +143,22 @@ fn reference(m: &Model, policy: GluePolicy) -> Vec<Issue> {
             if m.types_at(&node).len() > 1 { v.push(Issue::OtherRecordsAtCname(node.clone())); }   // "CNAMEs with other data"
         }
         if let Some(ns) = m.rrset(&node, NS) {
-            if node[0] == "*" { v.push(Issue::NsAtWildcard(node.clone())); }                       // "NS records at wildcard names"
+            if node.first().map_or(false, |l| l == "*") { v.push(Issue::NsAtWildcard(node.clone())); } // "NS records at wildcard names"
+            // occluded: walking down from the apex meets another delegation before this owner
+            let occluded = node != m.apex && m.resolve(&node, false) != Base::Referral(node.clone());
             for target in ns.1.iter().map(|r| wire_name(r)) {
                 if !addrs { continue; }
+                let out = if occluded { &mut may } else { &mut v };
                 // "in-zone name servers ... without addresses"
-                if in_zone_without_address(m, &target) { v.push(Issue::MissingNsAddress(target.clone())); }
+                if in_zone_without_address(m, &target) { out.push(Issue::MissingNsAddress(target.clone())); }
                 // "missing glue under the zone's glue policy": for a delegation's name server that lies below a
                 // delegation of this zone — wide: any; narrow: the delegation that names it — an address below the cuts
                 if node != m.apex {
                     if let Base::Referral(cut) = m.resolve(&target, false) {
-                        let required = policy == GluePolicy::Wide || cut == node;
+                        // (for an occluded owner `cut == node` never holds; the other reading is "the server is below the owner")
+                        let required = policy == GluePolicy::Wide || cut == node || (occluded && target.ends_with(&node));
                         let present = matches!(m.resolve(&target, true), Base::Node(n, _) if has_addr(m, &n));
-                        if required && !present { v.push(Issue::MissingGlue(target.clone())); }
+                        if required && !present { out.push(Issue::MissingGlue(target.clone())); }
                     }
                 }
             }
@@ -121,7 +171,8 @@ fn reference(m: &Model, policy: GluePolicy) -> Vec<Issue> {
         }
     }
     v.sort(); v.dedup();
-    v
+    may.sort(); may.dedup();
+    (v, may)
 }
 
 fn convert(i: &ValidationIssue) -> Issue {
@@ -141,16 +192,16 @@ fn convert(i: &ValidationIssue) -> Issue {
 /// "Only the MX-address and NS-at-wildcard issues are warnings."
 fn is_error(i: &Issue) -> bool { !matches!(i, Issue::MissingMxAddress(_) | Issue::NsAtWildcard(_)) }
 
-fn run(class: u16, policy: GluePolicy, subset: u32) {
-    let mut z = HashMapTreeZone::new("ap.ex.".parse().unwrap(), class_of(class), policy);
-    let mut m = Model::new("ap.ex.", class);
-    let recs: Vec<Rec> = (0..UNIVERSE.len()).filter(|i| subset >> i & 1 == 1).map(|i| Rec { class, ..UNIVERSE[i].clone() }).collect();
-    let input = (("apex", "ap.ex.", "class", class, policy), &recs);
+fn run(apex: &'static str, universe: &[Rec], class: u16, policy: GluePolicy, subset: u32) {
+    let mut z = HashMapTreeZone::new(apex.parse().unwrap(), class_of(class), policy);
+    let mut m = Model::new(apex, class);
+    let recs: Vec<Rec> = (0..universe.len()).filter(|i| subset >> i & 1 == 1).map(|i| Rec { class, ..universe[i].clone() }).collect();
+    let input = (("apex", apex, "class", class, policy), &recs);
     let r = catch_unwind(AssertUnwindSafe(|| {
         for r in &recs {
             if !(real_add(&mut z, r) && m.add(r)) { fail("add rejected a record of the universe", &input, &false, &true); }
         }
-        let want = reference(&m, policy);
+        let (want, may) = reference(&m, policy);
         let issues = match z.validate() {
             Ok(v) => v,
             Err(e) => fail("validate() failed on a zone whose RDATA is all well formed", &input, &e, &want),
@@ -161,21 +212,28 @@ fn run(class: u16, policy: GluePolicy, subset: u32) {
         }
         let mut got: Vec<Issue> = issues.iter().map(convert).collect();
         got.sort(); got.dedup();
-        if got != want { fail("set of issues reported by validate()", &input, &got, &want); }
+        // exact, except that the undetermined issues of occluded NS RRsets (`may`) are neither required nor forbidden
+        got.retain(|i| want.contains(i) || !may.contains(i));
+        if got != want { fail("set of issues reported by validate()", &input, &got, &(&want, "also allowed (occluded NS)", &may)); }
     }));
     if r.is_err() { fail("panic inside validation", &input, &"panic", &"no panic"); }
 }
 
 fn main() {
     let mut cases = 0u64;
-    for subset in 0u32..(1 << UNIVERSE.len()) {
-        if subset.count_ones() > MAX { continue; }
-        for class in [IN, CH, 0xff00] {
-            for policy in [GluePolicy::Narrow, GluePolicy::Wide] {
-                run(class, policy, subset);
-                cases += 1;
+    let mut family = |apex: &'static str, universe: &[Rec], max: u32| {
+        for subset in 0u32..(1 << universe.len()) {
+            if subset.count_ones() > max { continue; }
+            for class in [IN, CH, 0xff00] {
+                for policy in [GluePolicy::Narrow, GluePolicy::Wide] {
+                    run(apex, universe, class, policy, subset);
+                    cases += 1;
+                }
             }
         }
-    }
-    done(cases, "all subsets of <= 7 records of a 19-record universe x classes IN/CH/65280 x glue policies Narrow/Wide");
+    };
+    family("ap.ex.", &UNIVERSE, MAX);
+    family("ap.ex.", &NESTED, NESTED.len() as u32);
+    family("*.ap.ex.", &WILD_APEX, WILD_APEX.len() as u32);
+    done(cases, "zones x classes IN/CH/65280 x glue policies Narrow/Wide: all subsets of <= 7 records of a 19-record universe (apex ap.ex.); all subsets of a 14-record universe of nested / occluded delegations (apex ap.ex.; address and glue issues of occluded NS RRsets allowed, not required); all subsets of an 11-record universe whose apex is the wildcard name *.ap.ex.");
 }
